@@ -31,7 +31,7 @@ from dashlive.server.manifests import DashManifest
 from dashlive.server.options.container import OptionsContainer
 from dashlive.server.options.types import OptionUsage
 from dashlive.utils import objects
-from dashlive.utils.date_time import scale_timedelta
+from dashlive.utils.date_time import from_isodatetime, scale_timedelta
 from dashlive.utils.json_object import JsonObject
 from dashlive.utils.lang import lang_is_equal
 from dashlive.utils.timezone import UTC
@@ -576,8 +576,13 @@ class ManifestContext:
         for item in errors:
             code, pos = item
             if isinstance(pos, int):
-                drop_seg = int(pos, 10)
+                drop_seg = pos
+            elif availabilityStartTime is None:
+                # a time of day only has a meaning for a live stream
+                continue
             else:
+                if isinstance(pos, str):
+                    pos = from_isodatetime(pos)
                 tm = availabilityStartTime.replace(
                     hour=pos.hour, minute=pos.minute, second=pos.second)
                 if tm < earliest_available:
